@@ -29,6 +29,8 @@ func C03(c *Ctx) {
 	r.Rule("C03/R4", "the submitted result must carry the unchanged request payload", 3)
 	r.Rule("C03/R5", "the proposal's tasks re-encode exactly: store, signer and reconstruction decode the same list (no omitempty/dropped field, no one-sided marshaler)", 3)
 	r.Rule("C03/R6", "the record stored next to a proposal's payload can be replaced only by its author: received signature entries are attributed to the verified sender and the envelope's round, unconditionally (= C08/R3 attribution)", 3)
+	r.Rule("C03/R7", "the signature store keeps every entry as it was handed in: the repository writes whole entries and never a single field of one (payload, file, validator index, identifiers, signature)", 1)
+	c03StoreKeepsEntries(c)
 	c08SignatureAttribution(c, "C03/R6")
 	c03Reencode(c)
 
@@ -308,4 +310,43 @@ func c03Reencode(c *Ctx) {
 		sort.Strings(ds)
 		r.Check(len(issues) == 0, "C03/R5", "requests."+name+":re-encodes-exactly", "encoding then decoding a "+name+" yields the same value", "", strings.Join(ds, "; "))
 	}
+}
+
+
+// c03StoreKeepsEntries (R7): what a node stores next to a signature is the payload that was proposed/announced for THAT
+// entry. The repository (client/repositories/signature) only files whole entries; a store into one field of a
+// ReconstructedSignature there (payload "normalised" from another entry of the slot, file name taken from the first
+// record) detaches the stored payload from the bytes that were signed.
+func c03StoreKeepsEntries(c *Ctx) {
+	r := c.R
+	sp := c.P.SSAPkg("client/repositories/signature")
+	if sp == nil {
+		r.Unknown("C03/R7", "signature-repo:package", "the signature repository is loaded", "", "package not found")
+		return
+	}
+	n := 0
+	var bad []string
+	for fn := range c.P.AllFuncs() {
+		if fn.Pkg != sp || c.isTestFunc(fn) {
+			continue
+		}
+		n++
+		ssax.Instrs(fn, func(in ssa.Instruction) {
+			st, ok := in.(*ssa.Store)
+			if !ok {
+				return
+			}
+			fa, ok := st.Addr.(*ssa.FieldAddr)
+			if !ok || ssax.OwnerName(fa) != "ReconstructedSignature" {
+				return
+			}
+			// (initialising a local composite literal is not a rewrite of an entry)
+			if al, isAlloc := fa.X.(*ssa.Alloc); isAlloc && strings.Contains(al.Comment, "complit") {
+				return
+			}
+			bad = append(bad, fn.Name()+": ."+ssax.FieldOf(fa).Name()+" := "+ssax.Path(st.Val)+" at "+c.PosOf(in))
+		})
+	}
+	sort.Strings(bad)
+	r.Check(len(bad) == 0 && n >= 5, "C03/R7", "signature-repo:entries-kept-whole", "no field of a stored signature entry is rewritten by the repository", "", sprintf("%d functions scanned; field writes: %s", n, strings.Join(bad, "; ")))
 }
